@@ -1,38 +1,13 @@
 #include "vp_harness.h"
 #include "k.h"
-#include "ref_utf.h"
-#define N 2
-#define OMAX (3 * N + 1)
-REF_DECODE_U8(N + 1)
+typedef vp_string_t str_t;
+VP_BUF_HELPERS(S, __typeof__(((str_t *)0)->f0), uint8_t, VP_SSO, 5)
 int vp_harness_main(void) {
-  uint8_t sh[N + 1]; uint64_t n = N;
-  uint8_t *in = (uint8_t *)vp_exact(2); for (int i = 0; i < N; i++) { sh[i] = vp_in_u8(); in[i] = sh[i]; }
-  ref_item it[N + 1]; uint64_t k = ref_decode_u8(sh, n, it);
-  uint8_t rep[OMAX + 1]; uint64_t rl = 0;
-#if V >= 3
-  { uint64_t pos = 0; for (uint64_t i = 0; i < N + 1; i++) if (i < k) {
-      if (it[i].bad) { rep[rl++] = 0xEF; rep[rl++] = 0xBF; rep[rl++] = 0xBD; pos += 1; }
-      else { int len = ref_u8_len(sh[pos]); for (int j = 0; j < 4; j++) if (j < len) rep[rl++] = sh[pos + j]; pos += (uint64_t)len; } } }
-  ASSERT(rl <= 6, "rl");
-#endif
-#if V >= 4
-  ASSERT(vp_cleanup_utf8((uint8_t *)0, in, n) == rl, "measure");
-#endif
-#if V >= 5
-  { uint8_t *o = (uint8_t *)vp_exact(rl); uint64_t w = vp_cleanup_utf8(o, in, n);
-    ASSERT(w == rl, "w");
-    for (uint64_t i = 0; i < OMAX; i++) if (i < rl) ASSERT(o[i] == rep[i], "content");
-#if V == 6
-    ASSERT(vp_validate_utf8(o, rl) == 0, "revalidates");
-#endif
-  }
-#endif
-#if V == 7
-  { vp_string_t out; vp_from_utf8(&out, in, n, 1); ASSERT(out.f0.f1 == rl, "size"); vp_str_dtor(&out); }
-#endif
-#if V == 8
-  { vp_string_t out; vp_from_utf8(&out, in, n, 1); ASSERT(out.f0.f1 <= 6, "size"); vp_str_dtor(&out); }
-#endif
+  str_t s, f, t, out; uint8_t a[9], b[9], c[9];
+  S_mk_n(&s.f0, a, -1, NS); S_mk_n(&f.f0, b, -1, NF); S_mk_n(&t.f0, c, -1, NT);
+  vp_replace_str(&out, &s, &f, &t, 0);
+  ASSERT(out.f0.f1 <= 16, "size");
+  vp_str_dtor(&out);
   REACH("end");
   return 0;
 }
